@@ -4,7 +4,10 @@
    first occurrences keep their place; and the clause "rules before use": every build statement
    that uses a rule other than phony comes after a statement that reads as the definition of a
    rule of that name (C06_rules_before_use, for every project and selection, downloads, custom
-   builds, LINK and POST_LINK included). The executable predicate wf_manifestb (additionally: one
+   builds, LINK and POST_LINK included); every configured build's output file is a target of the
+   file (C06_outputs_are_targets); the object, download-directory and tag-file paths that laze
+   chooses extend the build directory for relative sources and names (C06_objects_under_build_dir,
+   C06_downloads_under_build_dir). The executable predicate wf_manifestb (additionally: one
    statement per output, rules defined once, app outputs are targets) is evaluated on every file
    of the model and of the implementation; the one-producer-per-output clause is not a theorem —
    it is false for the inputs of the open findings K06. *)
@@ -12,7 +15,7 @@ From Coq Require Import Ascii String List NArith.
 Import ListNotations.
 Require Import Laze.model.Base Laze.model.Env Laze.model.Allow Laze.model.Ninja Laze.model.Ctx
         Laze.model.Resolver Laze.model.Imports Laze.model.Generate Laze.model.Checks
-        Laze.proofs.StmtFacts Laze.proofs.GenerateFacts Laze.proofs.WfFacts.
+        Laze.model.Path Laze.proofs.StmtFacts Laze.proofs.GenerateFacts Laze.proofs.WfFacts Laze.proofs.OutTargets.
 Open Scope list_scope.
 
 Theorem C06_file_shape_partial : forall H EV b le bsel asel local part select disable cli_env g,
@@ -43,6 +46,32 @@ Theorem C06_first_occurrence_kept : forall es acc, exists t,
   fold_left (fun a e => sset_insert e a) es acc = acc ++ t.
 Proof. exact sset_fold_prefix. Qed.
 Print Assumptions C06_first_occurrence_kept.
+
+(* every configured build's output file is a target of the file: a build statement of the file has
+   exactly that path as its output (LINK, or POST_LINK when the builder's chain has such a rule) *)
+Theorem C06_outputs_are_targets : forall H EV b le bsel asel local part select disable cli_env g,
+  generate H EV b le bsel asel local part select disable cli_env = Ok g ->
+  forall info, In info (gr_builds g) ->
+  exists bld, In (show_stmt (SBuild bld)) (map show_stmt (gr_stmts g)) /\ nb_outs bld = [bi_out info].
+Proof. exact generated_outputs_are_targets. Qed.
+Print Assumptions C06_outputs_are_targets.
+
+(* the paths laze chooses itself: objects extend <build-dir> (they are <build-dir>/objects/...) when the
+   source path with its new extension is relative and builder and app names are relative; download
+   directories and their tag files extend <build-dir> (<build-dir>/dl/...) for relative dldir /
+   relpath / module name *)
+Theorem C06_objects_under_build_dir : forall build_dir bn an shareable src h rout,
+  is_absolute (with_extension src (object_ext shareable h rout)) = false ->
+  is_absolute bn = false -> is_absolute an = false ->
+  exists rest, object_path (path_push build_dir (S_ "objects")) bn an shareable src h rout = build_dir ++ rest.
+Proof. exact object_under_build_dir. Qed.
+Print Assumptions C06_objects_under_build_dir.
+Theorem C06_downloads_under_build_dir : forall build_dir d relpath name,
+  match dl_dldir d with Some dir => is_absolute dir = false | None => is_absolute relpath = false /\ is_absolute name = false end ->
+  (exists rest, dl_srcdir build_dir d relpath name = build_dir ++ rest) /\
+  (exists rest, dl_tagfile d (dl_srcdir build_dir d relpath name) = build_dir ++ rest).
+Proof. exact download_under_build_dir. Qed.
+Print Assumptions C06_downloads_under_build_dir.
 
 (* non-vacuity of the checker: a two-statement file with its rule first is accepted, the same
    file with the rule after its use, or with one output twice, is rejected *)
